@@ -39,6 +39,18 @@ def base_spec_text():
     op["responses"]["200"]["description"] = "TXT"
     s["components"]["schemas"]["U"] = {"oneOf": [{"$ref": "#/components/schemas/Pet"}, {"$ref": "#/components/schemas/Err"}], "discriminator": {"propertyName": "m", "mapping": {"TXT": "#/components/schemas/Pet", "e": "#/components/schemas/Err"}}}
     s["paths"]["/u"] = {"get": {"operationId": "getU", "responses": {"200": {"description": "ok", "content": {"application/json": {"schema": {"$ref": "#/components/schemas/U"}}}}}}}
+    # TWINS: places that carry the SAME text and the same structure elsewhere, so that a merge / de-duplication decision
+    # keyed on a text flips when only one of the two changes.  Two operations with one response shape …
+    for p, oid in (("/twina", "getTwinA"), ("/twinb", "getTwinB")):
+        s["paths"][p] = {"get": {"operationId": oid, "summary": "TXT", "responses": {
+            "200": {"description": "TXT", "content": {"application/json": {"schema": {"$ref": "#/components/schemas/Err"}}}},
+            "404": {"description": "TXT"}}}}
+    # … and two inline objects of one shape at different holders
+    inl = lambda: {"type": "object", "description": "TXT", "properties": {"a": {"type": "string", "description": "TXT", "example": "TXT"}, "k": {"type": "string", "enum": ["x", "TXT"]}}}
+    s["components"]["schemas"]["H1"] = {"type": "object", "properties": {"p": inl()}}
+    s["components"]["schemas"]["H2"] = {"type": "object", "properties": {"p": inl()}}
+    s["paths"]["/h"] = {"get": {"operationId": "getH", "responses": {"200": {"description": "ok", "content": {"application/json": {"schema": {"$ref": "#/components/schemas/H1"}}}},
+                                                                      "201": {"description": "ok", "content": {"application/json": {"schema": {"$ref": "#/components/schemas/H2"}}}}}}}
     return s
 
 
@@ -71,6 +83,16 @@ POSITIONS = [
     (("components", "schemas", "Pet", "properties", "cone", "enum", 0), False, "none"),
     (("paths", "/pets/{id}", "get", "parameters", 1, "schema", "default"), False, "none"),
 ]
+# twin positions: (path, carrier, kind) — the inert run keeps the text EQUAL to its twin's, the payload run changes one side
+TWINS = [
+    # (response enums of one shape are merged and the second operation's response texts are not emitted at all: no carrier)
+    (("paths", "/twinb", "get", "responses", "404", "description"), "none", "response"),
+    (("paths", "/twinb", "get", "responses", "200", "description"), "none", "response"),
+    (("paths", "/twinb", "get", "summary"), "doc", "response"),
+    (("components", "schemas", "H2", "properties", "p", "description"), "doc", "inline"),
+    (("components", "schemas", "H2", "properties", "p", "properties", "a", "description"), "doc", "inline"),
+    (("components", "schemas", "H2", "properties", "p", "properties", "a", "example"), "doc", "inline"),
+]
 N_TEXT = 18                      # positions [0, N_TEXT) carry text; the rest are non-string members / parameters
 PATTERN_POS = 5
 
@@ -90,6 +112,12 @@ def inert(s):
 def prepare(case):
     d = case["in"]
     base = inert(base_spec_text())
+    if d.get("twin") is not None:
+        path, carrier, kind = TWINS[d["twin"]]
+        a, b = copy.deepcopy(base), copy.deepcopy(base)
+        setp(b, path, "inert" + d["payload"])           # `a` keeps the twin's text
+        return {"op": case["op"], "in": {"spec_inert": a, "spec_payload": b, "payload": d["payload"], "position": "/".join(map(str, path)), "derives_ident": False,
+                                         "carrier": carrier, "twin": kind, "mode": d.get("mode", "client-mod"), "cfg": d.get("cfg", {})}}
     path, ident, carrier = POSITIONS[d["pos_index"]]
     a, b = copy.deepcopy(base), copy.deepcopy(base)
     pay = d["payload"]
@@ -131,7 +159,7 @@ def run(ctx):
     r = ctx.rng
     ctx.prepare = prepare
     if driver_ok and ctx.build_harness(["k_gen"]):
-        cases = []
+        cases = [c for c in vlib_corpus(ctx) if c["op"] == "inject.pair"]      # witnesses of the listed findings first
         for pi in range(len(POSITIONS)):
             kind = "text" if pi < N_TEXT else "num"
             pool = PAYLOADS if kind == "text" else NUM_PAYLOADS
@@ -146,6 +174,11 @@ def run(ctx):
                     if kind == "num" and r.random() < 0.5:
                         cfg["builders"] = True
                     cases.append({"op": "inject.pair", "in": {"pos_index": pi, "payload": pay, "kind": kind, "mode": mode, "cfg": cfg}})
+        # twins: an inert-looking edit of ONE side ("2"), and a few payloads
+        for ti in range(len(TWINS)):
+            for pay in ["2", " (edited)"] + (r.sample(PAYLOADS, 2) if ctx.quick else PAYLOADS):
+                for mode in (["client-mod", "server-mod", "types"] if not ctx.quick or pay == "2" else [r.choice(["client-mod", "server-mod"])]):
+                    cases.append({"op": "inject.pair", "in": {"twin": ti, "payload": pay, "mode": mode, "cfg": {"enum_mode": r.choice(["merge", "relaxed"])}}})
         ctx.shrunk = 99      # positions/payloads are already minimal
         B = 60
         for i in range(0, len(cases), B):
@@ -155,4 +188,4 @@ def run(ctx):
     return ctx.finish(
         checker_cmd="lake build Oas3Model.Props.C19 && #print axioms on every theorem" + ("" if ctx.quick else " && leanchecker"),
         trusted_base=vlib.TRUSTED_BASE + ["syn/prettyplease printing of string literals and doc attributes (token -> text) is trusted; the comparison is on tokens re-parsed from the emitted text", "which macro arguments are format strings is recognised by macro name (write!/format!/println!/…)"],
-        rule="a catalogue of 24 injection payloads (+ 11 number-like texts as the whole value of non-string members and parameters: default/const/single enum of integer, int32, uint32, number, boolean; + 9 valid regular expressions with string / raw-string terminators next to backslashes, inserted unescaped as `pattern`) (quote/escape breakers, comment terminators, attribute syntax, format braces, raw-string terminators, newlines, NUL, bidi controls, long text, `\\n` escapes) substituted at 18 text-bearing positions (descriptions, summaries, titles, enum/const/default/example values, pattern, server URL, response descriptions, discriminator mapping keys) of a generated spec, client-mod and server-mod, merge and relaxed enum modes (all thorough; the three line-break payloads + 5 sampled x 1 mode quick), each compared with the same spec carrying inert text: token skeleton with literals and docs erased must be identical (identifier-deriving positions: identical shape), every literal used as a format string must print itself, the payload must be recoverable from the literals/docs; non-trivial = every pair; distinct by (position, payload, mode)")
+        rule="a catalogue of 24 injection payloads (+ 11 number-like texts as the whole value of non-string members and parameters: default/const/single enum of integer, int32, uint32, number, boolean; + 9 valid regular expressions with string / raw-string terminators next to backslashes, inserted unescaped as `pattern`) (quote/escape breakers, comment terminators, attribute syntax, format braces, raw-string terminators, newlines, NUL, bidi controls, long text, `\\n` escapes) substituted at 18 text-bearing positions (descriptions, summaries, titles, enum/const/default/example values, pattern, server URL, response descriptions, discriminator mapping keys) of a generated spec, client-mod and server-mod, merge and relaxed enum modes (all thorough; the three line-break payloads + 5 sampled x 1 mode quick), each + TWIN positions (two operations with one response shape and equal descriptions / summary; two inline objects of one shape with equal description / member description / example at different holders: one side edited, the inert run keeps both equal) compared with the same spec carrying inert text: token skeleton with literals and docs erased must be identical (identifier-deriving positions: identical shape), every literal used as a format string must print itself, the payload must be recoverable from the literals/docs; non-trivial = every pair; distinct by (position, payload, mode)")
